@@ -359,3 +359,133 @@ func c09ObjectSyncFacts(r *Repo) []Fact {
 	}
 	return []Fact{f}
 }
+
+// ---- the successor list of a completed node is storage of the run ----
+//
+//   branchSuccessorsFresh : Bool   compose.runner.calculateBranch / resolveCompletedTasks: the slice
+//     calculateBranch returns (every identifier in first position of a `return`) is a local made in
+//     the call (`x := make(…)`, `var x []T`, a literal), every assignment to it is
+//     `x = append(x, …)`, and neither function has an `append` whose first argument is read from a
+//     field (`append(<y>.writeTo, …)`, `append(<y>.f[:n], …)`): the tables of the compiled runner
+//     (chanCall.writeTo aliases g.dataEdges[name]; built by append, so it may have spare capacity)
+//     are never appended to by a run.  `false` when the returned slice is bound to a field value.
+
+func c09BranchFact(cp *c09Pkg) Fact {
+	name := "branchSuccessorsFresh"
+	cb, file := cp.p.Func("runner", "calculateBranch")
+	rc, _ := cp.p.Func("runner", "resolveCompletedTasks")
+	if cb == nil || rc == nil || cb.Body == nil || rc.Body == nil {
+		return unknownFact(name, "Bool", "false", "compose", "runner.calculateBranch / runner.resolveCompletedTasks not found")
+	}
+	where := "compose/" + file + ": runner.calculateBranch, runner.resolveCompletedTasks"
+	// returned identifiers
+	rets := map[string]bool{}
+	ast.Inspect(cb.Body, func(x ast.Node) bool {
+		if _, ok := x.(*ast.FuncLit); ok {
+			return false
+		}
+		if rs, ok := x.(*ast.ReturnStmt); ok && len(rs.Results) > 0 {
+			if id, ok := rs.Results[0].(*ast.Ident); ok && id.Name != "nil" {
+				rets[id.Name] = true
+			}
+		}
+		return true
+	})
+	if len(rets) == 0 {
+		return unknownFact(name, "Bool", "false", where, "calculateBranch returns no named local slice")
+	}
+	fresh := true
+	var notes []string
+	for v := range rets {
+		declared, ok := false, true
+		ast.Inspect(cb.Body, func(x ast.Node) bool {
+			switch s := x.(type) {
+			case *ast.DeclStmt:
+				if gd, isG := s.Decl.(*ast.GenDecl); isG {
+					for _, sp := range gd.Specs {
+						if vs, isV := sp.(*ast.ValueSpec); isV {
+							for i, id := range vs.Names {
+								if id.Name == v {
+									declared = true
+									if i < len(vs.Values) && !c09EmptySliceExpr(vs.Values[i]) && !c09MakeOrLit(vs.Values[i]) {
+										ok = false
+									}
+								}
+							}
+						}
+					}
+				}
+			case *ast.AssignStmt:
+				for i, l := range s.Lhs {
+					id, isId := l.(*ast.Ident)
+					if !isId || id.Name != v || len(s.Lhs) != len(s.Rhs) {
+						continue
+					}
+					if s.Tok == token.DEFINE {
+						declared = true
+						if !c09MakeOrLit(s.Rhs[i]) {
+							ok = false
+							notes = append(notes, v+" := "+exprString(s.Rhs[i]))
+						}
+						continue
+					}
+					self := false
+					if c, isC := s.Rhs[i].(*ast.CallExpr); isC {
+						if f, isF := c.Fun.(*ast.Ident); isF && f.Name == "append" && len(c.Args) > 0 {
+							if a, isA := c.Args[0].(*ast.Ident); isA && a.Name == v {
+								self = true
+							}
+						}
+					}
+					if !self {
+						ok = false
+						notes = append(notes, v+" = "+exprString(s.Rhs[i]))
+					}
+				}
+			}
+			return true
+		})
+		if !declared || !ok {
+			fresh = false
+		}
+	}
+	// no append onto something read from a field
+	for _, fd := range []*ast.FuncDecl{cb, rc} {
+		ast.Inspect(fd.Body, func(x ast.Node) bool {
+			c, ok := x.(*ast.CallExpr)
+			if !ok {
+				return true
+			}
+			f, ok := c.Fun.(*ast.Ident)
+			if !ok || f.Name != "append" || len(c.Args) == 0 {
+				return true
+			}
+			a := c.Args[0]
+			if se, isS := a.(*ast.SliceExpr); isS {
+				a = se.X
+			}
+			if _, isSel := a.(*ast.SelectorExpr); isSel {
+				fresh = false
+				notes = append(notes, exprString(c))
+			}
+			return true
+		})
+	}
+	sort.Strings(notes)
+	return boolFact(name, fresh, where+": the successor list calculateBranch returns is a slice made in the call and only grown by `x = append(x, …)`; no append onto a slice read from a field of the compiled runner (offending: "+strings.Join(notes, " ; ")+")")
+}
+
+func c09MakeOrLit(e ast.Expr) bool {
+	if c09EmptySliceExpr(e) {
+		return true
+	}
+	switch v := e.(type) {
+	case *ast.CompositeLit:
+		return true
+	case *ast.CallExpr:
+		if f, ok := v.Fun.(*ast.Ident); ok && f.Name == "make" {
+			return true
+		}
+	}
+	return false
+}
